@@ -4,13 +4,15 @@
 (* Four symbol tables: 1 (Container) > 2 (Routine) > node N3 (a Loop body     *)
 (* Schedule) which carries table 3, table 4 or no table (`inner`); the table  *)
 (* of {3,4} that is not attached is the "foreign" table.  A state is ONE      *)
-(* record S = [tabs, inner, dead] so that the same operators judge            *)
+(* record S = [tabs, inner, dead, calls] so that the same operators judge     *)
 (*   - the model's own transitions (this module, PROPERTY StepOK), and        *)
 (*   - (pre, op, outcome, result, post) tuples recorded from the real         *)
 (*     psyclone SymbolTable (Trace_SymTab.tla).                               *)
 (* A symbol is [id, key, name, cls, ifc, dep]: object identity, the dict key  *)
 (* it is stored under, its actual name, its Python class, its interface and   *)
-(* (imports) the id of the ContainerSymbol it is imported from.               *)
+(* (imports) the id of the ContainerSymbol it is imported from / (generic     *)
+(* interfaces) of the RoutineSymbol that is its member; `calls` = ids of the  *)
+(* RoutineSymbols that a Call in the Routine's body (outside the loop) targets.*)
 (* A name is [c, sfx]: a base ("a","A","b","B","t1","t2") and the integer     *)
 (* suffixes appended by next_available_name ("A_1_2" = [c:"A", sfx:<<1,2>>]). *)
 EXTENDS Naturals, Sequences, FiniteSets, TLC, Json
@@ -26,9 +28,10 @@ Norm(n) == IF "codes" \in DOMAIN n THEN [codes |-> LowerCodes(n.codes)]
 Tables == 1..4
 KindCls == [gen |-> "Symbol", data |-> "DataSymbol", arg |-> "DataSymbol",
             imp |-> "DataSymbol", unres |-> "DataSymbol",
-            cont |-> "ContainerSymbol", rout |-> "RoutineSymbol"]
+            cont |-> "ContainerSymbol", rout |-> "RoutineSymbol",
+            generic |-> "GenericInterfaceSymbol"]
 KindIfc == [gen |-> "auto", data |-> "auto", arg |-> "arg", imp |-> "imp",
-            unres |-> "unres", cont |-> "mod", rout |-> "auto"]
+            unres |-> "unres", cont |-> "mod", rout |-> "auto", generic |-> "auto"]
 MkSym(id, n, k, dep) == [id |-> id, key |-> Norm(n), name |-> n,
                          cls |-> KindCls[k], ifc |-> KindIfc[k], dep |-> dep]
 
@@ -192,10 +195,20 @@ RemoveSym(S, t, y) ==
 InTab(S, t, i) == i \in IdsOf(S, t)
 SymIn(S, t, i) == CHOOSE x \in SymsOf(S, t) : x.id = i
 Renamed(x, n) == [x EXCEPT !.name = n, !.key = Norm(n)]
+\* remove() refuses a RoutineSymbol that is still referenced
+\* (_validate_remove_routinesymbol): the target of a Call found by walking the
+\* tree below the node of THIS table - the model's Calls (S.calls) sit in the
+\* Routine's body next to the loop, so they are seen from tables 1 and 2 only,
+\* not from the loop-body table and not from a detached table - or a member of
+\* a GenericInterfaceSymbol (dep = the member) of this same table.
+Referenced(S, t, y) ==
+  \/ y.id \in S.calls /\ t \in {1, 2}
+  \/ \E z \in SymsOf(S, t) : z.cls = "GenericInterfaceSymbol" /\ z.dep = y.id
 Removable(S, t, y) ==
-  /\ y.cls \in {"Symbol", "ContainerSymbol", "RoutineSymbol"}
+  /\ y.cls \in {"Symbol", "ContainerSymbol", "RoutineSymbol", "GenericInterfaceSymbol"}
   /\ y.cls = "ContainerSymbol" =>
         ~ \E z \in SymsOf(S, t) : z.ifc = "imp" /\ z.dep = y.id
+  /\ y.cls \in {"RoutineSymbol", "GenericInterfaceSymbol"} => ~ Referenced(S, t, y)
 
 EffAdd(S, op) ==
   LET id == FreshId(S)
@@ -360,7 +373,8 @@ EffMerge(S, op) ==
                               !.dead = @ \cup {op.o}])
 
 \* The model's (deterministic) prediction [out, res, post] for op in state S.
-Eff(S, op) ==
+\* (a Call whose target left every live table is no longer part of the state)
+EffRaw(S, op) ==
   CASE op.name = "add"         -> EffAdd(S, op)
     [] op.name = "new_symbol"  -> EffNew(S, op.s, op.n, op.tg, op.sh, op.k)
     [] op.name = "next_name"   -> Ok([t |-> "name", name |-> FreshFrom(op.n,
@@ -377,6 +391,8 @@ Eff(S, op) ==
     [] op.name = "detach"      -> EffDetach(S, op)
     [] op.name = "attach"      -> EffAttach(S, op)
     [] op.name = "merge"       -> EffMerge(S, op)
+Eff(S, op) == LET e == EffRaw(S, op)
+              IN [e EXCEPT !.post.calls = @ \cap UsedIds(e.post)]
 
 \* ------------------------------------------------- the alphabet of a state
 CONSTANTS Names, Tags, FindRoots
@@ -430,28 +446,31 @@ Tg(tag, id) == [tag |-> tag, id |-> id]
 E == T({}, {}, <<>>)
 Family == <<
   \* 1: everything empty, loop-body table attached
-  [tabs |-> <<E, E, E, E>>, inner |-> 3, dead |-> {}],
+  [tabs |-> <<E, E, E, E>>, inner |-> 3, dead |-> {}, calls |-> {}],
   \* 2: case variants across the three nested scopes, an argument, tags, a
   \*    foreign table whose names clash with scope 2
   [tabs |-> << T({Sy(1, "b", <<>>, "cont", 0), Sy(2, "A", <<>>, "gen", 0)}, {Tg("t1", 2)}, <<>>),
-               T({Sy(3, "a", <<>>, "arg", 0), Sy(4, "B", <<>>, "data", 0)}, {}, <<3>>),
+               T({Sy(3, "a", <<>>, "arg", 0), Sy(4, "B", <<>>, "data", 0),
+                  Sy(8, "b", <<1>>, "rout", 0)}, {Tg("t2", 8)}, <<3>>),
                T({Sy(5, "a", <<1>>, "data", 0)}, {Tg("t2", 5)}, <<>>),
                T({Sy(6, "A", <<>>, "data", 0), Sy(7, "b", <<>>, "rout", 0)}, {}, <<>>) >>,
-   inner |-> 3, dead |-> {}],
+   \* (routine b_1 of scope 2 is tagged and called from the Routine's body)
+   inner |-> 3, dead |-> {}, calls |-> {8}],
   \* 3: containers, imports and unresolved symbols on both sides of a merge
   [tabs |-> << T({Sy(1, "a", <<>>, "cont", 0), Sy(2, "b", <<>>, "imp", 1)}, {}, <<>>),
                T({Sy(3, "A", <<>>, "unres", 0), Sy(4, "b", <<>>, "gen", 0)}, {Tg("t1", 4)}, <<>>),
                E,
                T({Sy(5, "A", <<>>, "cont", 0), Sy(6, "B", <<>>, "imp", 5),
                   Sy(7, "a", <<1>>, "unres", 0)}, {}, <<>>) >>,
-   inner |-> 3, dead |-> {}],
+   inner |-> 3, dead |-> {}, calls |-> {}],
   \* 4: loop-body table detached (two foreign tables), routine/container/generic mix
   [tabs |-> << T({Sy(1, "a", <<>>, "data", 0), Sy(2, "b", <<>>, "arg", 0)}, {}, <<2>>),
                T({Sy(3, "A", <<>>, "rout", 0), Sy(4, "B", <<>>, "gen", 0),
-                  Sy(5, "a", <<1>>, "cont", 0)}, {}, <<>>),
+                  Sy(5, "a", <<1>>, "cont", 0), Sy(9, "b", <<1>>, "generic", 3)},
+                 {Tg("t2", 3)}, <<>>),
                T({Sy(6, "a", <<>>, "gen", 0)}, {}, <<>>),
                T({Sy(7, "a", <<>>, "data", 0), Sy(8, "B", <<>>, "gen", 0)}, {Tg("t1", 7)}, <<>>) >>,
-   inner |-> 0, dead |-> {}],
+   inner |-> 0, dead |-> {}, calls |-> {}],
   \* 5: foreign table attached as the innermost scope; lower-case names so that
   \*    swap_symbol_properties is accepted; two arguments
   [tabs |-> << T({Sy(1, "a", <<>>, "gen", 0)}, {Tg("t1", 1)}, <<>>),
@@ -459,14 +478,14 @@ Family == <<
                   Sy(4, "a", <<1>>, "data", 0)}, {}, <<3, 2>>),
                T({Sy(5, "b", <<>>, "cont", 0), Sy(6, "a", <<>>, "imp", 5)}, {}, <<>>),
                T({Sy(7, "b", <<>>, "data", 0)}, {Tg("t1", 7)}, <<>>) >>,
-   inner |-> 4, dead |-> {}],
+   inner |-> 4, dead |-> {}, calls |-> {}],
   \* 6: two containers in the foreign table, second one clashes with an argument
   [tabs |-> << E,
                T({Sy(1, "a", <<>>, "arg", 0), Sy(2, "b", <<1>>, "rout", 0)}, {}, <<1>>),
                T({Sy(3, "a", <<>>, "rout", 0)}, {}, <<>>),
                T({Sy(4, "b", <<>>, "cont", 0), Sy(5, "A", <<>>, "cont", 0),
                   Sy(6, "a", <<1>>, "imp", 4), Sy(7, "B", <<1>>, "data", 0)}, {Tg("t2", 7)}, <<>>) >>,
-   inner |-> 3, dead |-> {}] >>
+   inner |-> 3, dead |-> {}, calls |-> {}] >>
 
 NamesQuick == {NameRec("a", <<>>), NameRec("A", <<>>), NameRec("a", <<1>>),
                NameRec("b", <<>>), NameRec("B", <<>>)}
